@@ -83,9 +83,10 @@ func retCases(x *absint.Exec, st *absint.State, ret []absint.Value) []retCase {
 }
 
 // ruleCallbackConsumers decides, for every ParseCallback of the tree,
-//   C08-R1 (consumer): with (nil record, non-nil error) the record is never dereferenced;
-//   C09-R3: with an error the callback stops with an error that derives from it, or writes it out and continues;
-//   C17-R3b: a callback never returns a possibly non-nil error together with stop=false (the parser would drop it).
+//
+//	C08-R1 (consumer): with (nil record, non-nil error) the record is never dereferenced;
+//	C09-R3: with an error the callback stops with an error that derives from it, or writes it out and continues;
+//	C17-R3b: a callback never returns a possibly non-nil error together with stop=false (the parser would drop it).
 func ruleCallbackConsumers(c *core.Ctx, want map[string]bool) {
 	cbs := parseCallbacks(c.P)
 	if len(cbs) == 0 {
@@ -144,7 +145,7 @@ func ruleCallbackConsumers(c *core.Ctx, want map[string]bool) {
 				c.Discharge("C08-R1", fname, "consumer", pos, "no dereference of the record when the parser reports an error")
 			}
 		}
-		bad9, bad17 := 0, 0
+		bad9, bad17, bad10 := 0, 0, 0
 		for _, tm := range terms {
 			if tm.Kind == "panic" {
 				if want["C08-R1"] {
@@ -156,30 +157,30 @@ func ruleCallbackConsumers(c *core.Ctx, want map[string]bool) {
 				continue
 			}
 			for _, rc := range retCases(x, tm.State, tm.Ret) {
-			stop, stopKnown := rc.stop, rc.stopKnown
-			errV := rc.err
-			if isNilConst(errV) && absint.Mentions(tm.Ret[1], "perr") {
-				continue // (perr != nil, perr) with perr known non-nil: the nil case cannot occur
-			}
-			derives := absint.Mentions(errV, "perr")
-			reported := tm.State.Data["reported"] == "1"
-			switch {
-			case stopKnown && stop && derives:
-			case stopKnown && stop && !isNilConst(errV) && (rc.errNonNil || nilnessOf(x, tm.State, errV) == "nonnil") && reported:
-				// stops because reporting the error failed (lint on a broken sink)
-			case stopKnown && !stop && reported && isNilConst(errV):
-			default:
-				if want["C09-R3"] {
-					c.Violate("C09-R3", fname, "on-error", c.P.Pos(tm.Pos), fmt.Sprintf("given a parse error the callback returns (stop=%s, err=%s) having reported=%v: the command neither fails with that error nor prints it", tm.Ret[0].Key(), errV.Key(), reported), describe(x, tm))
+				stop, stopKnown := rc.stop, rc.stopKnown
+				errV := rc.err
+				if isNilConst(errV) && absint.Mentions(tm.Ret[1], "perr") {
+					continue // (perr != nil, perr) with perr known non-nil: the nil case cannot occur
 				}
-				bad9++
-			}
-			if !(stopKnown && stop) && !isNilConst(errV) {
-				if want["C17-R3"] {
-					c.Violate("C17-R3", fname, "stop-with-error", c.P.Pos(tm.Pos), fmt.Sprintf("the callback returns the error %s with stop=%s: the parser only propagates a callback's error when it stops, so this error is lost", errV.Key(), tm.Ret[0].Key()), describe(x, tm))
+				derives := absint.Mentions(errV, "perr")
+				reported := tm.State.Data["reported"] == "1"
+				switch {
+				case stopKnown && stop && derives:
+				case stopKnown && stop && !isNilConst(errV) && (rc.errNonNil || nilnessOf(x, tm.State, errV) == "nonnil") && reported:
+					// stops because reporting the error failed (lint on a broken sink)
+				case stopKnown && !stop && reported && isNilConst(errV):
+				default:
+					if want["C09-R3"] {
+						c.Violate("C09-R3", fname, "on-error", c.P.Pos(tm.Pos), fmt.Sprintf("given a parse error the callback returns (stop=%s, err=%s) having reported=%v: the command neither fails with that error nor prints it", tm.Ret[0].Key(), errV.Key(), reported), describe(x, tm))
+					}
+					bad9++
 				}
-				bad17++
-			}
+				if !(stopKnown && stop) && !isNilConst(errV) {
+					if want["C17-R3"] {
+						c.Violate("C17-R3", fname, "stop-with-error", c.P.Pos(tm.Pos), fmt.Sprintf("the callback returns the error %s with stop=%s: the parser only propagates a callback's error when it stops, so this error is lost", errV.Key(), tm.Ret[0].Key()), describe(x, tm))
+					}
+					bad17++
+				}
 			}
 		}
 		_ = wrote
@@ -196,6 +197,10 @@ func ruleCallbackConsumers(c *core.Ctx, want map[string]bool) {
 				continue
 			}
 			for _, rc := range retCases(x2, tm.State, tm.Ret) {
+				if want["C10-R3"] && !(rc.stopKnown && !rc.stop) && (isNilConst(rc.err) || (!rc.errNonNil && nilnessOf(x2, tm.State, rc.err) == "nil")) {
+					c.Violate("C10-R3", fname, "stop-without-error", c.P.Pos(tm.Pos), fmt.Sprintf("given a good record the callback may return stop=%s with a nil error: the parser stops reading and the command reports success on a prefix of the file", tm.Ret[0].Key()), describe(x2, tm))
+					bad10++
+				}
 				if !(rc.stopKnown && rc.stop) && !isNilConst(rc.err) {
 					if want["C17-R3"] {
 						c.Violate("C17-R3", fname, "stop-with-error", c.P.Pos(tm.Pos), fmt.Sprintf("the callback returns the error %s with stop=%s: the parser only propagates a callback's error when it stops, so this error is lost", tm.Ret[1].Key(), tm.Ret[0].Key()), describe(x2, tm))
@@ -206,6 +211,9 @@ func ruleCallbackConsumers(c *core.Ctx, want map[string]bool) {
 		}
 		if want["C09-R3"] && bad9 == 0 {
 			c.Discharge("C09-R3", fname, "on-error", pos, fmt.Sprintf("on a parse error: stops with that error, or prints it and continues (%d paths)", len(terms)))
+		}
+		if want["C10-R3"] && bad10 == 0 {
+			c.Discharge("C10-R3", fname, "stop-without-error", pos, "given a good record the callback stops the parse only together with an error")
 		}
 		if want["C17-R3"] && bad17 == 0 {
 			c.Discharge("C17-R3", fname, "stop-with-error", pos, "an error is only ever returned together with stop=true")
